@@ -285,6 +285,8 @@ const Prelude = `(set-option :produce-models true)
 (declare-fun str_from_rune (Int) Str)
 (declare-fun rune_count (Str) Int)
 (assert (forall ((s Str)) (! (and (>= (rune_count s) 0) (<= (rune_count s) (str_len s))) :pattern ((rune_count s)))))
+(assert (forall ((s Str) (lo Int) (hi Int)) (! (=> (and (<= 0 lo) (<= lo hi) (<= hi (str_len s))) (= (str_len (str_sub s lo hi)) (- hi lo))) :pattern ((str_sub s lo hi)))))
+(assert (forall ((s Str) (lo Int) (hi Int) (i Int)) (! (=> (and (<= 0 lo) (<= lo hi) (<= hi (str_len s)) (<= 0 i) (< i (- hi lo))) (= (str_at (str_sub s lo hi) i) (str_at s (+ lo i)))) :pattern ((str_at (str_sub s lo hi) i)))))
 (declare-const str_empty Str)
 (assert (= (str_len str_empty) 0))
 (declare-fun birth (Int) Int)
